@@ -1,7 +1,7 @@
 CFG = dict(
     props_file='Props/C04.v',
     coq_targets=['Checks/C04.vo', 'Props/C04.vo'],
-    bin='groupa', bin_args=['c04'], n_quick=60, n_thorough=4000, thorough_args=[],
+    bin='groupa', bin_args=['c04'], n_quick=60, n_thorough=800, thorough_args=[],
     level_text='C04_consequences_perm / _dup: the immediate-consequence operator of every head is invariant under clause permutation and duplication (all programs, all databases); C04_base_facts_unchanged: an engine run never changes a stored relation; C04_perm_partial: corollary of C01 for both orderings. Partial: invariance of the specification (perfect model) itself under permutation is validated per case, not proved. Oracle: 3 random permutations, a duplicated clause, and a reused engine that first ran 1-3 unrelated programs, all must answer like the original; base facts compared before/after.',
     level_note='Trusted: Coq kernel; hand-written Gallina model of clause semantics and of the engine strategy (Model/Datalog.v) — IRBuilder, the optimizer passes and Differential Dataflow are validated by the correspondence, not derived; harness printers.',
     corr_name='eval_engine / perfect_model on every variant vs IQLEngine',
